@@ -18,6 +18,7 @@ FAM = {
     "E.meth": {"param": "this", "local": "x", "inst": [("e1", "E"), ("e2", "E"), ("e3", "E")],
                "cls_paths": ["E.meth"], "attr": "meth"},
     "N.meth": {"param": "self", "local": "x", "inst": [("n1", "N"), ("n2", "N")], "cls_paths": ["N.meth"], "attr": "meth"},
+    "R.meth": {"param": "self", "local": "x", "inst": [("r1", "R"), ("r2", "R")], "cls_paths": ["R.meth"], "attr": "meth"},
     "Z.meth": {"param": "me", "local": "x", "inst": [("z1", "Z"), ("z2", "Z")], "cls_paths": ["Z.meth"], "attr": "meth"},
     "W.dm": {"param": "me", "local": "x", "inst": [("w1", "W"), ("w2", "W")], "cls_paths": ["W.dm"], "attr": "dm"},
     "W.In.meth": {"param": "self", "local": "x", "inst": [("i1", "In"), ("i2", "In")],
